@@ -260,6 +260,9 @@ func doDump(repo, spec string) {
 		os.Exit(2)
 	}
 	li := w.Locks()
+	if dbgHook != nil {
+		dbgHook(w)
+	}
 	for _, f := range WithClosures(fn) {
 		fmt.Printf("== %s entry locks %s\n", FuncName(f), li.Entry(f))
 		for _, b := range f.Blocks {
